@@ -31,5 +31,56 @@ def main(argv):
         r = subprocess.run([sys.executable, conf] + (['--fast'] if '--fast' in argv else []), cwd=ROOT)
         if r.returncode != 0:
             bad += 1
+    if '--fast' not in argv:
+        bad += two_solver_diff()
     print("selftest", "FAILED" if bad else "ok")
     return 3 if bad else 0
+
+
+def two_solver_diff(n=60):
+    """Dump a sample of the engine's queries as SMT-LIB2 and re-decide them with the system z3 4.8.12 and
+    cvc5: any `(error` line or a disagreement with z3 5.1 is a harness error (DESIGN.md 2.8)."""
+    import tempfile
+    import shutil
+    from models import env
+    env.install_symbolic()
+    from engine import symx, ctx as C
+    import importlib
+    samples = []
+    for hname, cfg, every in (('c06', {'rows': 4}, 7), ('c08', {'n': 5, 'kind': 'array'}, 11), ('c03', {'n': 5, 'k': 3, 'first': 'peak'}, 13),
+                              ('c18', {'fn': 'limit_signal', 'n': 3}, 3)):
+        h = importlib.import_module('harness.' + hname)
+        E = symx.Explorer()
+        E.dump, E.dump_max, E.dump_every = [], n // 4, every
+
+        def body():
+            env.reset()
+            h.run(C.SymCtx(E), cfg)
+        E.run(body)
+        samples += E.dump
+    d = tempfile.mkdtemp(prefix='vdiff_')
+    bad, decided = 0, 0
+    try:
+        for i, (smt, want) in enumerate(samples):
+            p = os.path.join(d, 'q%d.smt2' % i)
+            open(p, 'w').write(smt)
+            for tool in (['/usr/bin/z3', '-T:20', p], ['cvc5', '--tlimit=20000', p]):
+                try:
+                    r = subprocess.run(tool, capture_output=True, text=True, timeout=40)
+                except (OSError, subprocess.TimeoutExpired):
+                    continue
+                out = (r.stdout + r.stderr).strip()
+                if '(error' in out:
+                    print("HARNESS-ERROR: %s rejects a dumped query: %s" % (tool[0], out[:200]))
+                    bad += 1
+                    continue
+                ans = out.splitlines()[0].strip() if out else ''
+                if ans in ('sat', 'unsat'):
+                    decided += 1
+                    if ans != want:
+                        print("HARNESS-ERROR: solver disagreement on %s: z3-5.1 says %s, %s says %s" % (p, want, tool[0], ans))
+                        bad += 1
+    finally:
+        shutil.rmtree(d, ignore_errors=True)
+    print("two-solver diff: %d queries dumped, %d second opinions, %d problems" % (len(samples), decided, bad))
+    return bad
